@@ -328,6 +328,7 @@ def finish(ctx, level, coverage_extra, assumptions, replay_fn=None, exhaustive=F
     reported, known_hits = [], {}
     os.makedirs(os.path.join(VERIF, "replays"), exist_ok=True)
     seen_reason = set()
+    dropped = []
     for v in viols:
         if v.get("property") != prop:
             continue
@@ -349,7 +350,9 @@ def finish(ctx, level, coverage_extra, assumptions, replay_fn=None, exhaustive=F
         if replay_fn is not None:
             confirmed = replay_fn(ctx, path)
             if not confirmed:
-                ctx.notes.append("violation not reproduced from its replay file, dropped: " + path)
+                ctx.notes.append("violation not reproduced from its replay file, dropped: %s (%s: %s)" %
+                                 (path, v.get("kind"), v.get("reason", "")[:160]))
+                dropped.append(path)
                 os.unlink(path)
                 continue
         reported.append(path)
@@ -398,6 +401,11 @@ def finish(ctx, level, coverage_extra, assumptions, replay_fn=None, exhaustive=F
     if reported:
         print("%s: %d violating observations in total (first %d written as replay files)" % (prop, n_total, len(reported)))
         return 1
+    if dropped:
+        # observed once, not reproduced from the replay file: neither a violation nor a clean bill
+        print("INCONCLUSIVE %s: %d observation(s) rejected by the specification could not be reproduced: %s" %
+              (prop, len(dropped), "; ".join(n for n in ctx.notes if "not reproduced" in n)[:600]))
+        return 2
     print("%s %s: held on everything explored (%d model states, %d executions of the real code, %.0fs)" %
           (prop, ctx.tier, states, cov["evaluations"], time.time() - ctx.t0))
     return 0
